@@ -38,10 +38,10 @@ Dispatch ==
 
 TStep  == /\ l <= N /\ Line.a # "Reset"
           /\ Dispatch
-          /\ IF ObsMatches THEN TRUE ELSE PrintT(<<"C14-REASON", l, FirstBad>>) /\ FALSE
+          /\ IF ObsMatches THEN TRUE ELSE PrintT(<<"C14-REASON", l, FirstBad, last'.cls>>) /\ FALSE
           /\ l' = l + 1
 TReset == l <= N /\ Line.a = "Reset" /\ v' = <<<<>>, <<>>>>
-          /\ last' = [a |-> "Init", arg |-> <<>>, exp |-> Proj(<<<<>>, <<>>>>)] /\ l' = l + 1
+          /\ last' = [a |-> "Init", arg |-> <<>>, cls |-> "", exp |-> Proj(<<<<>>, <<>>>>)] /\ l' = l + 1
 TNext  == TStep \/ TReset
 TSpec  == TInit /\ [][TNext]_tvars
 
